@@ -116,9 +116,12 @@ def scanSalt (s : Bytes) (maxLen : Nat) : Option Bytes :=
   if ¬ (c == 36 || c == 0) then none
   else some (s.take (min n maxLen))
 
+/-- "Find beginning of salt string. The prefix should normally always be present. Just in case it is not." -/
+def stripPfx (setting pfx : Bytes) : Bytes :=
+  if hasPrefix setting pfx then setting.drop pfx.length else setting
+
 def cryptMd5 (D : Digests) (phrase setting : Bytes) : CRes :=
-  let s := if hasPrefix setting Gen.md5_salt_prefix then setting.drop Gen.md5_salt_prefix.length else setting
-  match scanSalt s Gen.MD5_SALT_LEN_MAX with
+  match scanSalt (stripPfx setting Gen.md5_salt_prefix) Gen.MD5_SALT_LEN_MAX with
   | none => .error .EINVAL
   | some salt =>
     .ok (Gen.md5_salt_prefix ++ salt ++ [36] ++ permEncode Gen.perm_md5crypt (D.md5crypt phrase salt))
@@ -132,7 +135,7 @@ structure ShaParsed where
   deriving DecidableEq, Repr
 
 def parseSha (pfx roundsPfx : Bytes) (dflt rmin rmax saltMax : Nat) (setting : Bytes) : Except Errno ShaParsed :=
-  let s := if hasPrefix setting pfx then setting.drop pfx.length else setting
+  let s := stripPfx setting pfx
   if hasPrefix s roundsPfx then
     let num := s.drop roundsPfx.length
     let c0 := cat num 0
